@@ -1,6 +1,6 @@
 // C08x replayer, part 2a: Solver::Vanka (kernel/solver/vanka.hpp), all eight VankaTypes, on the four matrix layouts of
 // harness/common/vc08x_saddle.hpp (CSR; BCSR 2x2/2x1/1x2; PowerDiag / PowerFull + PowerCol + PowerRow over CSR) with a
-// TupleFilter<unit filter on velocity nodes, UnitFilter on pressure dofs>.
+// TupleFilter<unit filter on velocity nodes, FilterChain<UnitFilter, MeanFilter> on the pressure>.
 // Cases come from spec/PrecondVanka.tla: the block structure, the life-cycle history and the result of every apply()
 // predicted by the specification's sweep; all values are dyadic and the local systems lie in the exact domain of
 // Math::invert_matrix, so results are compared with ==.  Also checked: the block structure computed by init_symbolic
@@ -61,7 +61,7 @@ static vj::Value run_layout(const vj::Value& c)
   Matrix mat = Lay_::build(n, m, vx::imat(c["patA"]), vx::imat(c["patB"]), vx::imat(c["patD"]));
   int cur = 0;
   Lay_::set_values(mat, M[0], n, m);
-  Filter fil = Lay_::filter(n, m, c["FV"].ints(), c["FP"].ints());
+  Filter fil = Lay_::filter(n, m, c["FV"].ints(), c["FP"].ints(), vx::dyvec(c["mp"]), vx::dyvec(c["md"]));
   VankaProbe<Matrix, Filter> vanka(mat, fil, vt, vx::dy(c["om"]), Index(c["iters"].as_int()));
   std::vector<DVec> tests; for(std::size_t k = 0; k < c["tests"].size(); ++k) tests.push_back(vx::dyvec(c["tests"][k]));
 
